@@ -16,6 +16,7 @@ structure AggState where
   valid : List (Nat × Bytes × Bytes)        -- (polynomial, message, partial) pairs that verify
   gsigs : List (Bytes × Bytes)              -- message ↦ its signature under the group key
   ownSig : Bytes                            -- what SignPartial returns in the current step
+  pthrs : List Nat                          -- per polynomial: its number of coefficients
   printed : Nat                             -- puts already reported
 
 def idx2 (s : Bytes) : Option Nat :=
@@ -35,23 +36,25 @@ def AggState.crypto (d : AggState) : Crypto :=
       let good := (sigs.filter fun s => d.valid.contains (poly, msg, s)).take thr
       if good.length < thr then none
       else if (dedup (good.map idx2)).length < thr then none
+      -- fewer points than the polynomial has coefficients: Lagrange interpolation yields some other group element
+      else if thr < d.pthrs.getD poly 0 then some [0xba, 0xad]
       else aget msg d.gsigs
     signPartial := fun _ _ => d.ownSig }
 
 def emptyGroup : GroupView := ⟨0, 1, 1, [(0, "a0")], 0⟩
 
 def AggState.empty : AggState :=
-  { node := Node.init true 96 "a0" 0 emptyGroup [], groups := [], valid := [], gsigs := [], ownSig := [], printed := 0 }
+  { node := Node.init true 96 "a0" 0 emptyGroup [], groups := [], valid := [], gsigs := [], ownSig := [], pthrs := [], printed := 0 }
 
 def hexNat (s : String) : Option Nat :=
   s.toList.foldl (fun acc ch => match acc, hexVal ch with
     | some a, some v => some (a * 16 + v)
     | _, _ => none) (some 0)
 
-/-- group spec `thr:n:maskhex:swap:own:poly` -/
+/-- group spec `thr:n:maskhex:swap:own:poly:polythr` -/
 def parseGroup (n : Nat) (spec : String) : Option GroupView :=
   match spec.splitOn ":" with
-  | [t, ln, m, sw, own, poly] =>
+  | [t, ln, m, sw, own, poly, _] =>
     match t.toNat?, ln.toNat?, hexNat m, own.toNat?, poly.toNat? with
     | some t, some ln, some m, some own, some poly =>
       let idxs := (List.range n).filter fun i => (m / 2 ^ i) % 2 = 1
@@ -118,7 +121,8 @@ def aggStep (d : AggState) (f : List String) : AggState × String :=
       | some (g0 :: gs) =>
         let node := Node.init (ch == "1") sl "a0" 0 g0 seed
         let node := { node with nextRound := 2, puts := [(.sync, genesis seed)] }
-        let d' : AggState := { AggState.empty with node := node, groups := g0 :: gs }
+        let pthrs := specs.map fun sp => ((sp.splitOn ":").getLast?.bind String.toNat?).getD 0
+        let d' : AggState := { AggState.empty with node := node, groups := g0 :: gs, pthrs := pthrs }
         let (d'', out) := d'.finish node "ok"
         (d'', out)
       | _ => (d, "bad-op")
@@ -179,8 +183,7 @@ def aggStep (d : AggState) (f : List String) : AggState × String :=
     if op == "pubrand" || op == "proxyget" then
       match r.toNat? with
       | some r =>
-        let via := if op == "proxyget" then Via.proxyGet else Via.publicRand
-        let (s, res) := publicRand d.crypto d.node via r
+        let (s, res) := publicRand d.crypto d.node (op == "proxyget") r
         match res with
         | .ok b _ => d.finish s (showB b)
         | .err => d.finish s "none"
@@ -190,8 +193,7 @@ def aggStep (d : AggState) (f : List String) : AggState × String :=
   | "serve" :: from_ :: via :: rest =>
     match from_.toNat? with
     | some from_ =>
-      let v := if via == "pub" then Via.publicStream else Via.syncChain
-      let (s1, res) := syncServe d.crypto d.node v from_
+      let (s1, res) := syncServe d.crypto d.node (via == "pub") from_
       match res with
       | .tooFar => d.finish s1 "too-far scan=- live=- put=-"
       | .sent bs =>
